@@ -80,6 +80,9 @@ func (w *World) project(rec Rec) {
 	if w.Proj["config"] {
 		post["config"] = w.projConfig()
 	}
+	if w.Proj["valset"] {
+		post["valset"] = w.projValset()
+	}
 	if w.Proj["bridge"] {
 		post["bridge"] = w.projBridge()
 	}
@@ -450,5 +453,80 @@ func (w *World) projConfig() Rec {
 		return false, nil
 	})
 	r["specs"] = specs
+	return r
+}
+
+func (w *World) projValset() Rec {
+	vals := []Rec{}
+	all, _ := w.App.StakingKeeper.GetAllValidators(w.Ctx)
+	for _, v := range all {
+		r := Rec{"op": w.Name(v.OperatorAddress), "pow": NumI64(v.GetConsensusPower(sdk.DefaultPowerReduction)), "evm": []int{}, "status": int(v.Status), "jailed": v.Jailed}
+		if e, err := w.App.BridgeKeeper.OperatorToEVMAddressMap.Get(w.Ctx, v.OperatorAddress); err == nil {
+			r["evm"] = bytesJ(e.EVMAddress)
+			r["registered"] = true
+		} else {
+			r["registered"] = false
+		}
+		vals = append(vals, r)
+	}
+	setJ := func(s bridgetypes.BridgeValidatorSet) []Rec {
+		out := []Rec{}
+		for _, b := range s.BridgeValidatorSet {
+			out = append(out, Rec{"evm": bytesJ(b.EthereumAddress), "pow": NumU64(b.Power)})
+		}
+		return out
+	}
+	r := Rec{"vals": vals, "hascur": false, "cur": []Rec{}}
+	if cur, err := w.App.BridgeKeeper.BridgeValset.Get(w.Ctx); err == nil {
+		r["hascur"] = true
+		r["cur"] = setJ(cur)
+	}
+	cps := []Rec{}
+	_ = w.App.BridgeKeeper.ValidatorCheckpointIdxMap.Walk(w.Ctx, nil, func(idx uint64, ct bridgetypes.CheckpointTimestamp) (bool, error) {
+		c := Rec{"idx": int(idx), "ts": NumU64(ct.Timestamp)}
+		if p, err := w.App.BridgeKeeper.ValidatorCheckpointParamsMap.Get(w.Ctx, ct.Timestamp); err == nil {
+			c["thr"] = NumU64(p.PowerThreshold)
+			c["hash"] = hex.EncodeToString(p.ValsetHash)
+			c["cp"] = hex.EncodeToString(p.Checkpoint)
+			c["pts"] = NumU64(p.Timestamp)
+		}
+		if s, err := w.App.BridgeKeeper.BridgeValsetByTimestampMap.Get(w.Ctx, ct.Timestamp); err == nil {
+			c["set"] = setJ(s)
+			// hash / checkpoint recomputed from the STORED set with the (C15-validated) encoders, in a throw-away context
+			cctx, _ := w.Ctx.CacheContext()
+			if _, h, err := w.App.BridgeKeeper.EncodeAndHashValidatorSet(cctx, &s); err == nil {
+				c["rehash"] = hex.EncodeToString(h)
+				if p, err := w.App.BridgeKeeper.ValidatorCheckpointParamsMap.Get(w.Ctx, ct.Timestamp); err == nil {
+					if cp, err := w.App.BridgeKeeper.CalculateValidatorSetCheckpoint(cctx, p.PowerThreshold, ct.Timestamp, h); err == nil {
+						c["recp"] = hex.EncodeToString(cp)
+					}
+				}
+			}
+		} else {
+			c["set"] = []Rec{}
+		}
+		if sg, err := w.App.BridgeKeeper.BridgeValsetSignaturesMap.Get(w.Ctx, ct.Timestamp); err == nil {
+			f := []bool{}
+			for _, s := range sg.Signatures {
+				f = append(f, len(s) > 0)
+			}
+			c["filled"] = f
+		} else {
+			c["filled"] = []bool{}
+		}
+		if ix, err := w.App.BridgeKeeper.ValsetTimestampToIdxMap.Get(w.Ctx, ct.Timestamp); err == nil {
+			c["tsidx"] = int(ix.Index)
+		} else {
+			c["tsidx"] = -1
+		}
+		cps = append(cps, c)
+		return false, nil
+	})
+	r["cps"] = cps
+	if li, err := w.App.BridgeKeeper.LatestCheckpointIdx.Get(w.Ctx); err == nil {
+		r["latest"] = int(li.Index)
+	} else {
+		r["latest"] = -1
+	}
 	return r
 }
